@@ -347,11 +347,106 @@ def rule_r6(ctx: Ctx) -> None:
             ctx.check(not bad, "_serdes.%s[DelimitedType]" % fname, "zero-extended and exactly fitting delimiter headers are accepted", "fields unknown to the writer read as zero / empty - also when the unknown field is itself delimited: its header is read from the implicit zeros", "pydsdl/_serdes.py", bad[:4])
 
 
+def rule_r7_concrete(ctx: Ctx) -> None:
+    """R1-R4 decide the layout terms and the reader's window accounting over abstract schemas.  Here two revisions of an
+    appendable type are built concretely (real constructors, real length sets, real codec - all evaluated from the source), put
+    into the same containers (field, array element, union variant, nested delimited), and data written with one revision is
+    read with the other."""
+    from . import concrete as C
+    from .c06 import _same
+
+    ctx.rule("C14.R7", "two revisions D / D' of a delimited type with the same extent (D' appends fields), nested as field, array element, union variant and inside another delimited type: the containers' bit_length_set and extent are equal, and data serialized with either revision deserializes with the other - common fields keep their values, appended ones read as zero / empty, unknown ones are skipped, and everything after the nested object (further elements, following fields) is read correctly [bounded grid, evaluated from the source]", min_instances=4)
+    T = C.Types(ctx)
+    u8, u16 = T.uint(8), T.uint(16, True)
+    old_fields = [("a", u8), ("b", T.varr(u8, 2))]
+    new_fields = old_fields + [("c", u16), ("d", T.varr(u16, 2)), ("e", T.boolean())]
+    d_old = T.delimited(T.struct("D {uint8 a; uint8[<=2] b}", old_fields), 128)
+    d_new = T.delimited(T.struct("D' {uint8 a; uint8[<=2] b; uint16 c; uint16[<=2] d; bool e}", new_fields), 128)
+
+    def containers(d: Any) -> List[Any]:
+        st = T.struct("C {uint3 x; D one; uint8 y; D[<=3] many; D[2] pair; uint8 z}", [("x", T.uint(3)), ("one", d), ("y", u8), ("many", T.varr(d, 3)), ("pair", T.farr(d, 2)), ("z", u8)])
+        un = T.union("V {uint8 k; D v; uint16 w}", [("k", u8), ("v", d), ("w", u16)])
+        outer = T.delimited(T.struct("O {D first; V u; uint8 last}", [("first", d), ("u", un), ("last", u8)]), 1024)
+        return [st, un, outer, d]
+
+    olds, news = containers(d_old), containers(d_new)
+    O = lambda a, b: {"a": a, "b": list(b)}  # noqa: E731
+    N = lambda a, b, c, d_, e: {"a": a, "b": list(b), "c": c, "d": list(d_), "e": e}  # noqa: E731
+
+    def blank(v: Any) -> Any:
+        """what a reader of the new revision sees of an object written by the old one"""
+        return {"a": v["a"], "b": v["b"], "c": 0, "d": [], "e": False}
+
+    def strip(v: Any) -> Any:
+        return {"a": v["a"], "b": v["b"]}
+
+    def convert(v: Any, f: Any, t_from: Any) -> Any:
+        """the value v of container type t_from with every D object mapped by f"""
+        if t_from.kind == "delimited" and t_from.inner is not None and t_from.inner.label.startswith("D"):
+            return f(v)
+        if t_from.kind == "delimited":
+            return convert(v, f, t_from.inner)
+        if t_from.kind == "struct":
+            return {nm: convert(v[nm], f, ft) for nm, ft in t_from.fields if nm}
+        if t_from.kind == "union":
+            (nm, x), = v.items()
+            return {nm: convert(x, f, dict(t_from.fields)[nm])}
+        if t_from.kind in ("farr", "varr"):
+            return [convert(x, f, t_from.elem) for x in v]
+        return v
+
+    n1, n2, n3 = N(1, [2], 0x1234, [7, 8], True), N(3, [], 5, [], False), N(9, [8, 7], 65535, [1], True)
+    values_new = {
+        0: [{"x": 5, "one": n1, "y": 0xAA, "many": [n2, n3, n1], "pair": [n3, n2], "z": 0x55}, {"x": 1, "one": n2, "y": 1, "many": [], "pair": [n1, n1], "z": 2}],
+        1: [{"v": n1}, {"k": 7}, {"w": 300}],
+        2: [{"first": n3, "u": {"v": n1}, "last": 0x77}, {"first": n2, "u": {"k": 1}, "last": 2}],
+        3: [n1, n2],
+    }
+    n = 0
+    for i, (t_old, t_new) in enumerate(zip(olds, news)):
+        bad = []
+        same_layout = _eval_layout(ctx, T, t_old) == _eval_layout(ctx, T, t_new)
+        if not same_layout:
+            bad.append({"layout": "bit_length_set / extent of the container differ between the revisions", "old": repr(_eval_layout(ctx, T, t_old))[:120], "new": repr(_eval_layout(ctx, T, t_new))[:120]})
+        for v_new in values_new[i]:
+            v_old = convert(v_new, strip, t_new)
+            for hdr in ((False, True) if t_new.kind == "delimited" else (False,)):
+                # written by the new revision, read by the old one: the appended fields are skipped
+                data = C.run_codec(ctx, T, "serialize", t_new, v_new, hdr)
+                got = C.run_codec(ctx, T, "deserialize", t_old, bytes(data), hdr) if isinstance(data, (bytes, bytearray)) else data
+                want = C.decode(t_old, C.encode(t_new, v_new, hdr), hdr)
+                n += 2
+                if not (_same(got, want) and (_same(want, v_old) or (i == 3 and not hdr))):
+                    bad.append({"written with": "D'", "read with": "D", "value": repr(v_new)[:100], "found": repr(got)[:160], "expected": repr(v_old)[:160]})
+                # written by the old revision, read by the new one: the appended fields read as zero / empty
+                data = C.run_codec(ctx, T, "serialize", t_old, v_old, hdr)
+                got = C.run_codec(ctx, T, "deserialize", t_new, bytes(data), hdr) if isinstance(data, (bytes, bytearray)) else data
+                want2 = convert(v_old, blank, t_old)
+                n += 2
+                if not _same(got, want2):
+                    bad.append({"written with": "D", "read with": "D'", "value": repr(v_old)[:100], "found": repr(got)[:160], "expected": repr(want2)[:160]})
+        ctx.check(not bad, t_new.label, "%d values x both directions" % len(values_new[i]), "revisions of an appendable type are interchangeable inside their containers: layout unchanged, common fields kept, appended fields zero / skipped, whatever follows read correctly", "pydsdl/_serdes.py", bad[:3])
+    ctx.count(n)
+
+
+def _eval_layout(ctx: Ctx, T: Any, t: Any) -> Any:
+    """(sorted bit lengths, extent) of a concrete type, evaluated from the source"""
+    from ..absint import Raised
+    from ..fold import Folder, Unfoldable
+
+    try:
+        f = Folder({"x": t.obj}, ctx.repo, T.prim.module, None, T.hook_for(T.prim))
+        return (sorted(f.fold(ast.parse("set(x.bit_length_set)", mode="eval").body)), f.fold(ast.parse("x.extent", mode="eval").body))
+    except (Raised, Unfoldable) as ex:
+        raise AnalysisError("the layout of %s cannot be evaluated from the source: %s" % (t.label, ex))
+
+
 def run(ctx: Ctx) -> None:
     ctx.attempt(rule_r6, ctx)
     ctx.attempt(rule_r1, ctx)
     ctx.attempt(rule_r2_r3, ctx)
     ctx.attempt(rule_r4, ctx)
     ctx.attempt(rule_r5, ctx)
+    ctx.attempt(rule_r7_concrete, ctx)
     ctx.assume("offset accounting of read_bits / bounded_subreader (C07.R3, C07.R5) and the composite alignment of 8 (C02.R4)")
     ctx.undecided("field-value preservation across revisions for all pairs and values (numerical)")
